@@ -12,10 +12,12 @@ end of a packet) -- the one speed such a device uses.
 
 Host program = list of primitive ops (JSON-able dicts):
   {"op":"idle","n":N}                       N idle cycles
-  {"op":"sof","frame":F}
+  {"op":"sof","frame":F | {"hi":h,"xor":k}}  SOF; dict form: frame = (h << 7) | (device's current address XOR k)
   {"op":"reset","n":N}                      SE0 on line_state for N cycles (>= 305: bus reset; <= 40: not one)
   {"op":"setup","req":[bm,bReq,wValue,wIndex,wLength], "addr":"dev"|int}
   {"op":"in","ep":E,"ack":0|1,"addr":...}   IN token; the host ACKs a good data packet iff ack
+      + "xack":1,"gap":N on an IN to another device's address ({"xor":k}): nothing answers on our port (the other
+        device's data is not repeated downstream); after the response window + N idle cycles the host ACKs it
   {"op":"out","ep":E,"data":[..],"flip":0|1 (non-control: 1 = re-use the previous toggle) | "pid":0|1 (ep0)}
   {"op":"ping","ep":E}
   {"op":"feed","ep":E,"data":[..],"last":0|1}   queue bytes on the IN stream of endpoint E (takes no bus time)
@@ -190,13 +192,17 @@ class FullDevice(_Wrapped):
         for n in layout["outs"]:
             self.out_streams[n] = (Signal(name=n + "_ready"), Signal(11, name=n + "_out"))
 
+    def _add_control(self, usb):
+        """The control endpoint of the device (hook: subclasses configure the standard handler differently)."""
+        usb.add_standard_control_endpoint(self.collection)
+
     def elaborate(self, platform):
         from luna.gateware.usb.usb2.device import USBDevice
         from luna.gateware.usb.usb2.endpoints.stream import USBStreamInEndpoint, USBStreamOutEndpoint
         from luna.gateware.usb.usb2.endpoints.status import USBSignalInEndpoint
         m = Module()
         m.submodules.usb = usb = USBDevice(bus=self.utmi)
-        usb.add_standard_control_endpoint(self.collection)
+        self._add_control(usb)
         lay = self.layout_eps
         ins = [(n, USBStreamInEndpoint(endpoint_number=e, max_packet_size=FULL_MPS)) for n, e in lay["ins"].items()]
         outs = [(n, USBStreamOutEndpoint(endpoint_number=e, max_packet_size=FULL_MPS)) for n, e in lay["outs"].items()]
@@ -535,8 +541,13 @@ class HostBFM:
                 elif n > 40:
                     raise HarnessError("reset lengths between 41 and 304 cycles are not generated")
             elif kind == "sof":
-                yield from self._send(U.sof(op["frame"]))
-                txn = dict(i=i, kind="sof", addr=None, ep=None, ack=0)
+                frame = op["frame"]
+                if isinstance(frame, dict):
+                    # frame number chosen relative to the device's CURRENT address: the 11 payload bits of an SOF
+                    # sit where ADDR[6:0] + ENDP[3:0] sit in the other tokens
+                    frame = ((frame.get("hi", 0) & 0xF) << 7) | ((self.model.addr ^ frame.get("xor", 0)) & 0x7F)
+                yield from self._send(U.sof(frame))
+                txn = dict(i=i, kind="sof", addr=None, ep=None, ack=0, frame=frame, dev_addr=self.model.addr)
                 txn["t_tok_end"] = self.t - 1
                 raw, a, b = yield from self._short_listen()
                 txn["resp"], txn["t_resp"] = M.parse_response(raw), (a, b)
@@ -600,6 +611,14 @@ class HostBFM:
                 yield from self._idle(2 + self._tv() % 3)
                 yield from self._send(U.handshake(U.PID_ACK))
                 txn["ack"] = 1
+                txn["t_ack_end"] = self.t - 1
+            elif op.get("xack") and resp == M.NONE and addr != self.model.addr:
+                # a transaction with ANOTHER device behind the same hub: that device's data packet travels upstream
+                # only (a hub does not repeat it on our port), the host's ACK of it is broadcast downstream like
+                # every host packet.  Our device saw: IN token for a foreign address, an idle bus, ACK.
+                yield from self._idle(op.get("gap", 0) + self._tv() % 5)
+                yield from self._send(U.handshake(U.PID_ACK))
+                txn["xack"] = 1
                 txn["t_ack_end"] = self.t - 1
             self._finish(txn)
             return
